@@ -43,7 +43,7 @@ func (*C13) Plan(tier string) orch.Plan {
 		Assumptions: []string{"exhaustive: true refers to the core (all fail/succeed assignments over the first K write attempts of each listed configuration); the rest is sampled"}}
 }
 
-var c13Sevs = []int{model.Error, model.Warn, model.Info, model.Debug, model.Fail, model.Always, model.OK}
+var c13Sevs = []int{model.Error, model.Warn, model.Info, model.Debug, model.Fail, model.Always, model.OK, model.Panic, model.Fatal} // (Panic and Fatal do not terminate here: the no-interrupt flag is set)
 
 // c13Config builds loggers/destinations and a call sequence from a seed.
 func c13Config(r *scen.Rng, sc *scen.Scenario, nCalls int, tasks int) (tk int) {
